@@ -136,18 +136,6 @@ theorem ctfTR_total_of_parts (target : MG Name) (ds : List Domain) (o c : Event)
 
 /-! ### a decidable form of `QGood` and `PopsCoverNodes` (for concrete inputs) -/
 
-def vocabCheck (target : MG Name) (ds : List Domain) (q : Expr) : Bool :=
-  (Expr.iterVars q).all fun v => mem' v (target.nodes.map Var.plain) || ds.any fun d => mem' v (Expr.iterVars d.pop)
-
-/-- run lines 1-3 and look at `Q` -/
-def qGoodCheck (target : MG Name) (ds : List Domain) (o c : Event) : Bool :=
-  match line2C target o c with
-  | .ok (dstar, _) =>
-    match ctfTRu target ds dstar with
-    | .ok (some (q, some _)) => !TrDsl.isZero q && vocabCheck target ds q
-    | _ => true
-  | .error _ => true
-
 theorem qGood_of_check (target : MG Name) (ds : List Domain) (o c : Event) (h : qGoodCheck target ds o c = true) :
     QGood target ds o c := by
   intro dstar dNames q simplified h2 hu
@@ -160,9 +148,6 @@ theorem qGood_of_check (target : MG Name) (ds : List Domain) (o c : Event) (h : 
   rcases this with ⟨n, hn, rfl⟩ | ⟨d, hd, hvd⟩
   · exact Or.inl ⟨n, hn, rfl⟩
   · exact Or.inr ⟨d, hd, hvd⟩
-
-def popsCoverCheck (target : MG Name) (ds : List Domain) : Bool :=
-  target.nodes.all fun n => ds.any fun d => mem' (Var.plain n) (Expr.iterVars d.pop)
 
 theorem popsCover_of_check (target : MG Name) (ds : List Domain) (h : popsCoverCheck target ds = true) :
     PopsCoverNodes target ds := by
